@@ -94,8 +94,31 @@ Definition str_of_Z (z : Z) : str :=
   if Z.ltb z 0 then 45%N :: digits_of 400 (- z) [] else digits_of 400 z [].
 Definition str_of_key (k : val) : val := match k with VInt z => VStr (str_of_Z z) | _ => k end.
 
+(* Repair switches. The pinned tree is `as_is` (all false): the model is then faithful to the code, defects
+   included. Each switch replaces one defective step by the behaviour of the corresponding patch in /verif/fixes:
+     fx_union : Union returns the last NON-exception of the trial list instead of vals[-1]   (C02-union-vals-last)
+     fx_lit   : Literal membership compares type and value instead of ==                       (C02-literal-eq)
+     fx_key   : Dict[str, T] rejects keys that are not str                                     (C02-dict-key-unchecked)
+     fx_valerr: a ValueError raised by a YAML scalar constructor counts as "not loadable"      (C02-any-str-valueerror) *)
+Record fixes := { fx_union : bool; fx_lit : bool; fx_key : bool; fx_valerr : bool }.
+Definition as_is : fixes := {| fx_union := false; fx_lit := false; fx_key := false; fx_valerr := false |}.
+Definition all_fixed : fixes := {| fx_union := true; fx_lit := true; fx_key := true; fx_valerr := true |}.
+
+(* type(v) is type(l) and v == l *)
+Definition lit_mem_strict (v : val) (ls : list lit) : bool := existsb (fun l => val_eqb v (lit_val l)) ls.
+
+(* the exception instance that `vals[-1]` can hand out as if it were a value *)
+Definition exc_val : val := VOpaque [101;120;99]%N [].
+
 Section Adapt.
-Variable yload : str -> lres.            (* yaml_load *)
+Variable fx : fixes.
+Variable yload0 : str -> lres.           (* yaml_load *)
+Definition yload (s : str) : lres :=
+  match yload0 s with
+  | LValErr => if fx_valerr fx then LYamlErr else LValErr
+  | r => r
+  end.
+Definition lmem (v : val) (ls : list lit) : bool := if fx_lit fx then lit_mem_strict v ls else lit_mem v ls.
 
 (* json_or_yaml_load *)
 Definition json_or_yaml_load (s : str) : lres :=
@@ -191,11 +214,15 @@ Fixpoint union_loop (orig : option str) (v : val) (rs : list (ty * ares)) (vals 
       end
   end.
 
-(* `if all exceptions: raise; val = <the last value that is not an exception>` *)
+(* `if all(isinstance(v, Exception) for v in vals): raise ...; val = vals[-1]` — on the pinned tree the last entry
+   can be an exception instance (a failing `str` member contributed orig_val, a later member failed): it is then
+   returned as the value. With fx_union: the last entry that is not an exception. *)
 Definition union_result (vals : list uval) : ares :=
   match filter (fun u => match u with UOk _ => true | UExc => false end) vals with
   | [] => AErr ErrValue
-  | oks => match last oks UExc with UOk w => AOk w | UExc => AErr ErrValue end
+  | oks => if fx_union fx
+           then match last oks UExc with UOk w => AOk w | UExc => AErr ErrValue end
+           else match last vals UExc with UOk w => AOk w | UExc => AOk exc_val end
   end.
 
 Definition adapt_union (orig : option str) (v : val) (rs : list (ty * ares)) : ares :=
@@ -236,7 +263,7 @@ Fixpoint dict_set (k v : val) (d : list (val * val)) : list (val * val) :=
 
 (* ---- adapt_typehints (prev_val = None, append = False, default not passed);
    ser = the serialize flag: the same branches run, with the differences marked below ---- *)
-Fixpoint adapt (ser : bool) (orig : option str) (t : ty) (v : val) {struct t} : ares :=
+Fixpoint adapt_g (ser : bool) (orig : option str) (t : ty) (v : val) {struct t} : ares :=
   match t with
   | TStr => adapt_leaf LfStr v
   | TInt => adapt_leaf LfInt v
@@ -254,7 +281,7 @@ Fixpoint adapt (ser : bool) (orig : option str) (t : ty) (v : val) {struct t} : 
       end
   | TLit ls =>
       let step1 :=
-        if negb (lit_mem v ls) && is_str v then
+        if negb (lmem v ls) && is_str v then
           (* adapt(val, Union[{type(l) for l in ls if type(l) is not str}]) *)
           let kinds := (if existsb (fun l => match l with LInt _ => true | _ => false end) ls then [(TInt, adapt_leaf LfInt v)] else [])
                     ++ (if existsb (fun l => match l with LBool _ => true | _ => false end) ls then [(TBool, adapt_leaf LfBool v)] else [])
@@ -267,11 +294,12 @@ Fixpoint adapt (ser : bool) (orig : option str) (t : ty) (v : val) {struct t} : 
         else AOk v in
       match step1 with
       | AErr e => AErr e
-      | AOk v1 => if lit_mem v1 ls then AOk v1 else AErr ErrValue
+      | AOk v1 => if lmem v1 ls then AOk v1 else AErr ErrValue
       end
   | TEnum cls members =>
       match v with
-      | VEnum c m => if str_eqb c cls then AOk (if ser then VStr m else v)
+      | VEnum c m => if str_eqb c cls && mem_str m members     (* isinstance(val, typehint): an instance IS a member *)
+                     then AOk (if ser then VStr m else v)
                      else if ser then AOk v else AErr ErrValue
       | VStr s => if ser then AOk v else if mem_str s members then AOk (VEnum cls s) else AErr ErrValue
       | VList _ | VDict _ | VSet _ => if ser then AOk v else AErr ErrType    (* unhashable key in typehint[val] *)
@@ -280,7 +308,7 @@ Fixpoint adapt (ser : bool) (orig : option str) (t : ty) (v : val) {struct t} : 
   | TUnion ts =>
       adapt_union orig v
         ((fix go (ts : list ty) : list (ty * ares) :=
-            match ts with [] => [] | t1 :: ts' => (t1, adapt ser orig t1 v) :: go ts' end) ts)
+            match ts with [] => [] | t1 :: ts' => (t1, adapt_g ser orig t1 v) :: go ts' end) ts)
   | TTuple ts =>
       match seq_items v with
       | None => AErr ErrValue
@@ -289,7 +317,7 @@ Fixpoint adapt (ser : bool) (orig : option str) (t : ty) (v : val) {struct t} : 
           else
             (fix go (ts : list ty) (l : list val) (acc : list val) : ares :=
                match ts, l with
-               | t1 :: ts', x :: l' => match adapt ser orig t1 x with
+               | t1 :: ts', x :: l' => match adapt_g ser orig t1 x with
                                        | AOk w => go ts' l' (acc ++ [w])
                                        | AErr e => AErr e
                                        end
@@ -299,7 +327,7 @@ Fixpoint adapt (ser : bool) (orig : option str) (t : ty) (v : val) {struct t} : 
   | TTupleVar t1 =>
       match seq_items v with
       | None => AErr ErrValue
-      | Some l => match map_ares (adapt ser orig t1) l with
+      | Some l => match map_ares (adapt_g ser orig t1) l with
                   | inl (Some r) => AOk (if ser then VList r else VTuple r)
                   | inl None => AErr ErrValue
                   | inr e => AErr e
@@ -308,7 +336,7 @@ Fixpoint adapt (ser : bool) (orig : option str) (t : ty) (v : val) {struct t} : 
   | TSet t1 =>
       match seq_items v with
       | None => AErr ErrValue
-      | Some l => match map_ares (adapt ser orig t1) l with
+      | Some l => match map_ares (adapt_g ser orig t1) l with
                   | inl (Some r) => if ser then AOk (VList r)
                                     else if forallb hashable r then AOk (VSet (canon_set r)) else AErr ErrType
                   | inl None => AErr ErrValue
@@ -318,7 +346,7 @@ Fixpoint adapt (ser : bool) (orig : option str) (t : ty) (v : val) {struct t} : 
   | TList t1 =>
       match v with
       | VList l | VTuple l | VSet l =>
-          match map_ares (adapt ser orig t1) l with
+          match map_ares (adapt_g ser orig t1) l with
           | inl (Some r) => AOk (VList r)
           | inl None => AErr ErrValue
           | inr e => AErr e
@@ -339,6 +367,7 @@ Fixpoint adapt (ser : bool) (orig : option str) (t : ty) (v : val) {struct t} : 
                                                    | inr e => inr e
                                                    end
                                        end) d (inl [])
+            else if fx_key fx && negb ser && negb (forallb (fun kv => is_str (fst kv)) d) then inr ErrValue
             else inl d in
           match casted with
           | inr e => AErr e
@@ -346,7 +375,7 @@ Fixpoint adapt (ser : bool) (orig : option str) (t : ty) (v : val) {struct t} : 
               (fix go (d : list (val * val)) (acc : list (val * val)) : ares :=
                  match d with
                  | [] => AOk (VDict acc)
-                 | (k, x) :: d'' => match adapt ser orig t1 x with
+                 | (k, x) :: d'' => match adapt_g ser orig t1 x with
                                     | AOk w => go d'' (acc ++ [(k, w)])
                                     | AErr e => AErr e
                                     end
@@ -360,20 +389,20 @@ Fixpoint adapt (ser : bool) (orig : option str) (t : ty) (v : val) {struct t} : 
 Definition is_valid_string (t : ty) (v : val) : bool :=
   is_str v && match t with TStr => true | TUnion ts => existsb is_str_ty ts | _ => false end.
 
-Definition check_type (t : ty) (v0 : val) : ares :=
+Definition check_type_g (t : ty) (v0 : val) : ares :=
   let orig := match v0 with VStr s => Some s | _ => None end in
   (* parse_value_or_config inside `try ... except loader exceptions` *)
   match parse_value false v0 with
   | LValErr => if is_valid_string t v0 then AOk v0 else AErr ErrType
   | pv =>
       let v := match pv with LVal x => x | _ => v0 end in
-      let first := adapt false orig t v in
+      let first := adapt_g false orig t v in
       let outcome :=
         match first with
         | AErr ErrValue =>
             (* retry with the original string *)
             match orig with
-            | Some o => match adapt false orig t (VStr o) with
+            | Some o => match adapt_g false orig t (VStr o) with
                         | AOk w => AOk w
                         | AErr ErrValue => AErr ErrValue
                         | AErr ErrType => AErr ErrType
@@ -390,14 +419,21 @@ Definition check_type (t : ty) (v0 : val) : ares :=
 
 (* one key through a parse method: the action adapts the value, and validation re-checks the
    result (its outcome is discarded, only success matters; None is skipped) *)
-Definition parse_key (t : ty) (v0 : val) : ares :=
-  match check_type t v0 with
+Definition parse_key_g (t : ty) (v0 : val) : ares :=
+  match check_type_g t v0 with
   | AOk VNone => AOk VNone
-  | AOk w => match check_type t w with AOk _ => AOk w | AErr e => AErr e end
+  | AOk w => match check_type_g t w with AOk _ => AOk w | AErr e => AErr e end
   | r => r
   end.
 
 (* ---- serialisation: ActionTypeHint.serialize = adapt_typehints(value, serialize=True) ------------ *)
-Definition serialize (t : ty) (v : val) : ares := adapt true None t v.
+Definition serialize_g (t : ty) (v : val) : ares := adapt_g true None t v.
 
 End Adapt.
+
+(* the pinned tree *)
+Definition adapt (yl : str -> lres) := adapt_g as_is yl.
+Definition check_type (yl : str -> lres) := check_type_g as_is yl.
+Definition parse_key (yl : str -> lres) := parse_key_g as_is yl.
+Definition serialize (yl : str -> lres) := serialize_g as_is yl.
+
